@@ -321,6 +321,7 @@ func runAdapterStream(rng *lib.RNG, perTernary int) {
 		if impl != model {
 			res.Disagree(lib.Disagreement{Stream: "adapter", Input: map[string]string{"line": lines[i]}, Model: model, Impl: impl})
 		}
+		adapterDocCheck(c, lines[i], impl) // round 8 (coerce.go): the same answer decided by the documented conversions, without the model
 		if i%997 == 0 {
 			res.Sample(map[string]string{"stream": "adapter", "line": clip(lines[i], 200), "answer": clip(impl, 120)}, 4)
 		}
